@@ -60,7 +60,7 @@ macro_rules! c19_type {
             /// arbitrary, possibly zero, seed) and advanced in between; and the
             /// second instance's results do not depend on `a` having run.
             #[kani::proof]
-            #[kani::unwind(70)]
+            #[kani::unwind(170)]
             #[kani::stub(u64::wrapping_mul, crate::c01::uf::umul64)]
             #[kani::stub(u32::wrapping_mul, crate::c01::uf::umul32)]
             pub fn nonint() {
